@@ -54,6 +54,9 @@ NextOrderFails(c, cc) == CASE c.order = 1 -> ~Order2(c, cc)
 (* one step of x' = t^3 from t0 with step h, as the *documented* method computes it *)
 Cube(r) == RMul(r, RMul(r, r))
 Quad(c, t0, h) == RMul(h, RSumOver([i \in Idx(c) |-> RMul(c.docb[i], Cube(RAdd(t0, RMul(c.docc[i], h))))], Idx(c)))
+(* several consecutive steps hs[1], hs[2], ... (the solver shortens the last one so that it lands on the requested end time) *)
+RECURSIVE QuadSteps(_, _, _)
+QuadSteps(c, t0, hs) == IF hs = <<>> THEN RZero ELSE RAdd(Quad(c, t0, Head(hs)), QuadSteps(c, RAdd(t0, Head(hs)), Tail(hs)))
 
 Verdict(c) ==
     [ name |-> c.name,
@@ -64,7 +67,7 @@ Verdict(c) ==
       exactOrder |-> NextOrderFails(c, CA(c)),
       documentedTableau |-> DocumentedTableau(c),
       documentedTimes |-> DocumentedTimes(c),
-      quadrature |-> \A q \in DOMAIN c.quad : REq(c.quad[q].obs, Quad(c, c.quad[q].t0, c.quad[q].h)),
+      quadrature |-> \A q \in DOMAIN c.quad : REq(c.quad[q].obs, QuadSteps(c, c.quad[q].t0, c.quad[q].hs)),
       stateIntact |-> c.intact ]
 
 ASSUME JsonSerialize(IOEnv.OUTF, [i \in 1..Len(Cases) |-> Verdict(Cases[i])])
@@ -77,7 +80,7 @@ RK4c == [name |-> "rk4", order |-> 4, S |-> 4,
          b |-> << R(1,6), R(1,3), R(1,3), R(1,6) >>, ct |-> <<Z, H, H, ROne>>,
          docA |-> << <<Z,Z,Z,Z>>, <<H,Z,Z,Z>>, <<Z,H,Z,Z>>, <<Z,Z,ROne,Z>> >>,
          docb |-> << R(1,6), R(1,3), R(1,3), R(1,6) >>, docc |-> <<Z, H, H, ROne>>, intact |-> TRUE,
-         quad |-> << [t0 |-> ROne, h |-> H, obs |-> R(65, 64)] >>]
+         quad |-> << [t0 |-> ROne, hs |-> <<H>>, obs |-> R(65, 64)] >>]
 Heun == [RK4c EXCEPT !.order = 2, !.S = 2, !.A = << <<Z,Z>>, <<ROne,Z>> >>, !.b = <<H,H>>, !.ct = <<Z,ROne>>]
 ASSUME LET v == Verdict(RK4c) IN v.explicit /\ v.rowSumsMatchTimes /\ v.orderAutonomous /\ v.orderNonAutonomous /\ v.exactOrder /\ v.quadrature
 ASSUME OrderAtLeast(Heun, CA(Heun), 2) /\ ~OrderAtLeast(Heun, CA(Heun), 3)
